@@ -601,6 +601,34 @@ func c13Summary(c *Ctx, p *Prog) {
 				}
 			})
 			c.Check(okS, R, "assumeNothing.Summary:sample-ci", site, "interval ends are order statistics of the sample (QuantileCIResult.SampleCI)", "the interval ends are not taken from the sample through SampleCI")
+			// the confidence reported is the interval's own, on every path
+			confF := p.Field("benchmath", "Summary", "Confidence")
+			nConf, okConf := 0, true
+			for _, st := range storesToField(fn, confF) {
+				nConf++
+				own := false
+				switch x := st.Val.(type) {
+				case *ssa.Field:
+					if f, _ := fieldOfVal(x); f != nil && f.Name() == "Confidence" && x.X == ssa.Value(ciCall) {
+						own = true
+					}
+				case *ssa.UnOp:
+					if f, base := loadOfField(x); f != nil && f.Name() == "Confidence" {
+						// the call's result spilled into a local
+						if al, ok := base.(*ssa.Alloc); ok {
+							for _, s2 := range storesInto(al) {
+								if s2.Val == ssa.Value(ciCall) {
+									own = true
+								}
+							}
+						}
+					}
+				}
+				if !own {
+					okConf = false
+				}
+			}
+			c.Check(okConf && nConf > 0, R, "assumeNothing.Summary:reported-confidence", site, "the summary carries the confidence of the interval that was computed", "the confidence put into the summary is not, on every path, the computed interval's own confidence (for a half-infinite interval — n=5 at 0.95 gives [-Inf, max] with coverage 0.96875 — a fixed value such as 1 is not the exact binomial coverage)")
 		}
 	} else {
 		c.Undecided(R, "anchor:assumeNothing.Summary", "", "method not found")
